@@ -411,6 +411,9 @@ impl CommandAnalyzer {
                     let err_type = inner[comma_pos + 1..].trim();
                     self.extract_type_names_recursive(ok_type, type_names);
                     self.extract_type_names_recursive(err_type, type_names);
+                } else {
+                    // A one-parameter alias: type Result<T> = std::result::Result<T, AppError>
+                    self.extract_type_names_recursive(inner, type_names);
                 }
             }
             return;
@@ -494,8 +497,7 @@ impl CommandAnalyzer {
         // Check if this is a custom type name
         if !rust_type.is_empty()
             && !self.type_resolver.get_type_set().contains(rust_type)
-            && !rust_type.starts_with(char::is_lowercase) // Skip built-in types
-            && rust_type.chars().next().is_some_and(char::is_alphabetic)
+            && rust_type.starts_with(|c: char| c.is_alphabetic() || c == '_')
             && !rust_type.contains('<')
         // Skip generic type names with parameters
         {
